@@ -5,7 +5,10 @@ package rux
 // havocked (any state an earlier request can leave behind is an instance);
 // the first handler of the new request must observe a pristine context.
 
-import "net/http"
+import (
+	"io"
+	"net/http"
+)
 
 type verifObs struct {
 	seen     bool
@@ -88,6 +91,17 @@ func verifC10Router(globals int) (*Router, *[]string) {
 	r.GET("/s", tag("s"), pass)
 	r.GET("/d/{id}", tag("d"), pass, pass)
 	r.POST("/p", tag("p"))
+	// template rendering: a page that renders, and one whose template fails half way through
+	r.Renderer = verifC10Renderer{}
+	r.GET("/t", func(c *Context) {
+		err := c.Render(200, "ok", nil)
+		log = append(log, "t:"+verifBoolStr(err == nil))
+	})
+	r.GET("/tbad", func(c *Context) {
+		err := c.Render(200, "bad", nil)
+		log = append(log, "tbad:"+verifBoolStr(err == nil))
+		c.WriteString("fallback")
+	})
 	// a handler that edits the query values it was given (to build a "next page" link, say)
 	r.GET("/q", func(c *Context) {
 		q := c.QueryValues()
@@ -120,6 +134,18 @@ func verifC10Router(globals int) (*Router, *[]string) {
 	return r, &log
 }
 
+// verifC10Renderer writes the page's opening and, for the template "bad", fails after that.
+type verifC10Renderer struct{}
+
+func (verifC10Renderer) Render(w io.Writer, name string, data any, c *Context) error {
+	_, _ = w.Write([]byte("<" + name + ">"))
+	if name == "bad" {
+		return verifErr{}
+	}
+	_, _ = w.Write([]byte("</" + name + ">"))
+	return nil
+}
+
 // what earlier requests handed out and may still write to
 var (
 	verifC10Kept     []*Context
@@ -135,7 +161,7 @@ func verifBoolStr(b bool) string {
 
 func verifHarness_C10_history() {
 	globals := verifChoice("globals", 2)
-	reqs := []verifC03Req{{"GET", "/s"}, {"GET", "/d/7"}, {"GET", "/nowhere"}, {"POST", "/s"}, {"POST", "/p"}, {"GET", "/q"}, {"GET", "/c"}}
+	reqs := []verifC03Req{{"GET", "/s"}, {"GET", "/d/7"}, {"GET", "/nowhere"}, {"POST", "/s"}, {"POST", "/p"}, {"GET", "/q"}, {"GET", "/c"}, {"GET", "/t"}, {"GET", "/tbad"}}
 	r, log := verifC10Router(globals)
 	verifC10Kept, verifC10KeptData = nil, nil
 	K := verifParam("K")
